@@ -100,3 +100,43 @@ package builder
 //@             isIdle(bc) && bc.schedulerMayThinkExecutingUntil != nil ==> bc.request.PreferBeingIdle
 //@   at call Synchronize#1 assert reports-current-state: arg2 == &bc.request
 //@   ensures inv: bcInv(bc)
+
+// ---------------------------------------------------------------------------
+// Each action runs isolated and leaves nothing behind (C12)
+//
+// acquired(i): successful Acquire calls minus Release calls this call made on
+// idle invoker i (see pkg/cleaner). ghost removed(d, name) / closedDirs(d):
+// build directory protocol calls.
+
+//@ ghost map dirclosed(ref) int zero
+
+//@ stub (pkg/builder.BuildDirectory).Close
+//@   modifies dirclosed[arg0]
+//@   ensures dirclosed(arg0) == old(dirclosed(arg0)) + 1
+
+// One Release per successful Acquire on every path: on success the returned
+// directory owns the acquisition, on failure nothing stays acquired.
+//@ func (*cleanBuildDirectoryCreator).GetBuildDirectory
+//@   props C12
+//@   ensures acquisition-handed-to-directory: r2 == nil ==> acquired(dc.idleInvoker) == 1 && r0 != nil
+//@   ensures nothing-acquired-on-error: r2 != nil ==> acquired(dc.idleInvoker) == 0
+//@ func (cleanBuildDirectory).Close
+//@   props C12
+//@   ensures releases-exactly-once: acquired(d.idleInvoker) == -1
+//@   ensures closes-the-directory-once: dirclosed(d.BuildDirectory) == 1
+
+// The per-action subdirectory: removed and the parent closed on every error
+// path after the parent was obtained, and always on Close.
+//@ ghost map removedall(ref) int zero
+//@ stub (pkg/builder.BuildDirectory).RemoveAll
+//@   modifies removedall[arg0]
+//@   ensures removedall(arg0) == old(removedall(arg0)) + 1
+//@ func (*sharedBuildDirectoryCreator).GetBuildDirectory
+//@   props C12
+//@   ensures parent-closed-on-error: r2 != nil && parentDirectory != nil ==> dirclosed(parentDirectory) == 1
+//@   ensures parent-kept-on-success: r2 == nil ==> dirclosed(parentDirectory) == 0
+//@ func (*sharedBuildDirectory).Close
+//@   props C12
+//@   ensures child-removed-always: removedall(d.parentDirectory) == 1
+//@   ensures parent-closed-always: dirclosed(d.parentDirectory) == 1
+//@   ensures child-closed: dirclosed(d.BuildDirectory) == 1 || d.BuildDirectory == d.parentDirectory
